@@ -234,7 +234,7 @@ impl Slave {
             if broadcast {
                 return None;
             }
-            let bytes = self.resp(sa, None, None, 0, vec![]);
+            let bytes = self.resp(sa, None, None, self.cfg.fdl_status_code & 0x0F, vec![]);
             return self.finish(bytes, req, dsap);
         }
         if !wire::request_expects_reply(req) {
@@ -462,6 +462,10 @@ impl Slave {
                 pdu: vec![],
             }),
             ByzShape::Garbage(g) => g,
+            ByzShape::Truncated(k) => {
+                let keep = usize::from(k).clamp(1, good.len().saturating_sub(1).max(1));
+                good[..keep].to_vec()
+            }
             ByzShape::Trailing(t) => {
                 let mut b = good.clone();
                 b.extend_from_slice(&t);
